@@ -75,7 +75,7 @@ def setup():
     plain, shim, asan, drv = build_all()
     try:
         UA.build(B.build("asan"))
-        core.build_model_driver("C13ualloc", "ExtractC13Util.v", os.path.join(HERE, "driver_ualloc.ml"))
+        core.build_model_driver("C13ualloc", "ExtractC13UtilEnd.v", os.path.join(HERE, "driver_ualloc.ml"))
     except Exception:          # reported by run()
         pass
 
